@@ -62,7 +62,7 @@ class C06(Prop):
             "that had been modified before, followed by an append; distinct by program hash")
     ASSUMPTIONS = ["not generated (unspecified by the property): InsertItemInArray beyond the end, key-less items inside objects, "
                    "editing through reference nodes, moves that would make reference views cyclic"]
-    REQUIRED_CLASSES = ["nontrivial_program", "self_insert", "reference", "const_key", "case_variant_lookup", "bulk", "big_container", "long_key"]
+    REQUIRED_CLASSES = ["nontrivial_program", "self_insert", "reference", "const_key", "case_variant_lookup", "bulk", "big_container", "long_key", "packed_placement", "set_string_from_other_item"]
 
     def budget(self, tier):
         return {"workers": 14, "examples": 1200 if tier == "quick" else 12000}
@@ -221,7 +221,16 @@ class C06(Prop):
     def run_case(self, lib, case, stats):
         if case.get("kind") == "big":
             return self.run_big(lib, case, stats)
-        w, it = run_program(lib, case, stats)
+        # a quarter of the programs run under packed placement: blocks lie directly behind one another (see native/ledger.c)
+        from ..core import h64
+        packed = h64(case) % 4 == 0
+        lib.ledger_set_packed(1 if packed else 0)
+        try:
+            w, it = run_program(lib, case, stats)
+        finally:
+            lib.ledger_set_packed(0)
+        if packed:
+            stats.cls("packed_placement")
         stats.inner += w.steps
         for f in it.feat:
             stats.cls(f)
